@@ -32,7 +32,9 @@ RULE = ("sampler: environment explorer - numpy.random.uniform/choice/poisson are
         "(cycle through the true zeros, cycle through all cells, constant cell c for every c); a replay whose "
         "choice-point signature differs from the recorded one is a hard error, a failing script is replayed a "
         "second time before it is reported.  solver/lbfgsb: product of the configuration lattice x data family, "
-        "one real solve each, invariants evaluated on the recorded true trace.  reuse: every word of solves of "
+        "one real solve each, invariants evaluated on the recorded true trace; the stop tolerance f_est_tol is "
+        "placed relative to the objective of the starting guess, on both sides of it.  Sparse data is enumerated as "
+        "(zero pattern, stored order of the nonzeros) for every sampler entry point.  reuse: every word of solves of "
         "length <= 3 over the problem alphabet on one optimizer object versus a fresh object.  Non-trivial: a "
         "sample with >= 1 entry / a solve with >= 1 completed epoch / a word of >= 2 solves.")
 ASSUMPTIONS = [
@@ -47,26 +49,31 @@ ASSUMPTIONS = [
     "time traces and wall-clock fields are not compared",
 ]
 BOUNDS = {
-    "quick": "sampler (~0.48 M scripted executions): shapes (2,2) all 16 zero patterns and (2,3) 8 pattern classes, "
-             "values = distinct signed odd integers; uniform on dense and sparse holder n=0..6; nonzeros / zeros with and "
-             "without replacement 0..available+2 (two stored orders for 2-3 nonzeros); stratified (nn, nz) on the cross "
+    "quick": "sampler (~0.69 M scripted executions): shapes (2,2) all 16 zero patterns and (2,3) 8 pattern classes, "
+             "values = distinct signed odd integers; every operation that is handed an sptensor with >= 2 nonzeros is run "
+             "on two stored orders of the nonzeros (column-major and reversed); uniform on dense and sparse holder "
+             "n=0..6; nonzeros / zeros with and without replacement 0..available+2; stratified (nn, nz) on the cross "
              "{0,1} x 0..zeros+2 and 0..nnz+2 x {0,1} ((2,2)) resp. {0,1,2}^2 ((2,3)); semistrat {0,1,2}^2; GCPSampler: "
              "every valid function / gradient sampler choice {default, UNIFORM, STRATIFIED, SEMISTRATIFIED} x count "
              "forms {default, int, StratifiedCount} on 6 ((2,2)) resp. 5 ((2,3)) patterns, Poisson stratum sizes 0..2; "
              "scripts: complete for <= 5 ((2,3): 4) draws, <= 2 deviations from each of the 2+cells policies for <= 8 "
-             "((2,3): 6) draws, <= 1 deviation beyond; boundary draw u=0.0 on (2,2). solver (3 888 solves): {SGD,Adam,"
+             "((2,3): 6) draws, <= 1 deviation beyond; boundary draw u=0.0 on (2,2). solver (6 912 solves): {SGD,Adam,"
              "Adagrad} x rate {1e-3,1e-1,10} x decay {.1,1} x max_fails 0..2 x max_iters 0..4 x epoch_iters {1,2} x "
-             "{Gaussian, Poisson} x 3 pool members, rank 2, + f_est_tol {0.98 F0, 0.5 F0} and gcp_opt-driver slices "
+             "{Gaussian, Poisson} x 3 pool members, rank 2, + f_est_tol slice: tolerance on both sides of the objective "
+             "F0 of the starting guess {0.5 F0, 0.98 F0 | 1.02 F0, 1e3 F0, +inf (already met by the start)} x rate "
+             "{1e-3,1e-1,10} x max_fails {0,1} x max_iters {0,1,3} x epoch_iters {1,2}, and gcp_opt-driver slices "
              "(objective as tuple and as enum, dense and sparse data); init: 3 members x {dense, sparse} x rank 1-3 x 2 "
              "numpy seeds. lbfgsb (240 solves): maxiter {0,1,2,5,40} x 2 "
              "losses x 3 members x rank {1,2} x mask {none, one hole} x {solve, gcp_opt}. reuse (1 344 words): 5 optimizer "
              "kinds (LBFGSB with / without user callback) x 2 configurations x {scripted, seeded real} sampler x all 84 "
              "words of length <= 3 over 4 problems (two sizes, two ranks, two losses)",
-    "thorough": "sampler (~4 M executions): (2,2) all patterns with the full (nn, nz) grid 0..nnz+2 x 0..zeros+2, (2,3) "
-                "all 64 patterns (GCPSampler lattice on 8 classes), (2,2,2) 8 classes; Poisson counts 0..3; scripts "
+    "thorough": "sampler (~5.8 M executions): (2,2) all patterns with the full (nn, nz) grid 0..nnz+2 x 0..zeros+2, (2,3) "
+                "all 64 patterns (GCPSampler lattice on 8 classes), (2,2,2) 8 classes; two stored orders as in quick; "
+                "Poisson counts 0..3; scripts "
                 "complete for <= 5 draws ((2,2,2): 4), <= 2 deviations up to 12 / 7 / 6 draws; boundary draws on (2,2) "
-                "and (2,3). solver (77 220 solves): rate {1e-3,1e-2,1e-1,1,10} x decay {.1,.5,1} x max_fails 0..3 x "
-                "max_iters 0..6 x epoch_iters {1,2,3} x rank {1,2} x 5 pool members. lbfgsb: maxiter {0,1,2,3,5,10,40,"
+                "and (2,3). solver (83 880 solves): rate {1e-3,1e-2,1e-1,1,10} x decay {.1,.5,1} x max_fails 0..3 x "
+                "max_iters 0..6 x epoch_iters {1,2,3} x rank {1,2} x 5 pool members; f_est_tol slice as in quick with "
+                "rate {1e-3,1e-2,1e-1,10}. lbfgsb: maxiter {0,1,2,3,5,10,40,"
                 "200}. reuse: 5 problems incl. sparse data (155 words), 3 configurations",
 }
 CHUNK = 1
